@@ -118,6 +118,15 @@ def matrix_programs():
               "macro a(match m) { m; }\nparser { a(m); }", "macro a(out o) { o = 1; }\nparser { \"x\"; a(a); }", "macro a() { }\nparser { a(); \"x\"; }", "macro a(macro m) { m(m); }\nparser { \"x\"; a(a); }"]
     for i, m in enumerate(macros):
         out.append({"name": f"matrix/macro{i}", "src": m + "\n", "args": []})
+    # action-only conditionals whose branches differ in how they leave the transition (break / finish / finish code / append that can run out of
+    # of space / plain action): the combined override mode decides which states the reachability passes keep, and the code generator indexes them
+    kinds = {"break": "break;", "finish": "finish;", "fcode": "finish early;", "append": "s += [65];", "set": "n = 0;", "hook": "h();"}
+    import itertools as _it
+    combos = [(a_, b_, None) for a_ in kinds for b_ in kinds] + [c for c in _it.permutations(kinds, 3)]
+    for (a_, b_, c_) in combos:
+        cond = f"if n == 3 {{ {kinds[a_]} }} elif n == 9 {{ {kinds[b_]} }}" + (f" else {{ {kinds[c_]} }}" if c_ else "")
+        src = ('out str[4] s;\nout int n;\nhook h;\nfinishcode early;\nparser { try { loop { "a"; n = [n + 1]; ' + cond + ' } "after"; } catch (outofspace) { "zz"; } }\n')
+        out.append({"name": f"matrix/condmix.{a_}.{b_}" + (f".{c_}" if c_ else ""), "src": src, "args": []})
     return out
 
 
